@@ -439,7 +439,9 @@ def run(chk):
         # distinct keys across the log so that log_to_builder succeeds on the pristine file
         seen, bl = set(), []
         for b in batches:
-            bb = [e for e in b if (e[0], e[1]) not in seen]
+            # (the empty key at timestamp u64::MAX equals an SstBuilder's initial last key: log_to_builder
+            # would refuse it with sort-order on the pristine log already)
+            bb = [e for e in b if (e[0], e[1]) not in seen and (e[0], e[1]) != (b"", 2**64 - 1)]
             seen.update((e[0], e[1]) for e in bb)
             if bb:
                 bl.append(bb)
